@@ -161,6 +161,15 @@ def fmax {K} [LT K] [DecidableLT K] [BEq K] (a b : K) : K := if a < b then b els
 /-- `for x in l { … }` as a left fold (list and initial state first, which helps elaboration) -/
 def foldlT {α β : Type} (l : List α) (init : β) (f : β → α → β) : β := List.foldl f init l
 
+/-- `for x in l { … }` whose body can `return` from the enclosing function: `f` returns `inl s'` to go on with the next element
+    and `inr r` to leave the function with `r`; the result is `inl` of the final state if the loop ran to its end -/
+def foldlRet {α β ρ : Type} : List α → β → (β → α → Sum β ρ) → Sum β ρ
+  | [], s, _ => Sum.inl s
+  | x :: xs, s, f =>
+    match f s x with
+    | Sum.inl s' => foldlRet xs s' f
+    | Sum.inr r => Sum.inr r
+
 /-- `for x in l { … }` whose body can `break`: `f` returns `inl s'` to go on with the next element and `inr s'` to
     leave the loop -/
 def foldlBrk {α β : Type} : List α → β → (β → α → Sum β β) → β
